@@ -274,3 +274,156 @@ Print Assumptions agreement.
 Print Assumptions no_false_accusation.
 Print Assumptions honest_never_reported.
 Print Assumptions slash_budget.
+
+(* ---------------------------------------------------------------- the chain's own certificate (begin-block) never fails *)
+Definition pairs (ds : list (N * list N)) : list (N * N) := flat_map (fun d => map (fun h => (fst d, h)) (snd d)) ds.
+Lemma pairs_cons k hs ds : pairs ((k, hs) :: ds) = map (fun h => (k, h)) hs ++ pairs ds.
+Proof. reflexivity. Qed.
+Lemma pairs_app a b : pairs (a ++ b) = pairs a ++ pairs b.
+Proof. unfold pairs. apply flat_map_app. Qed.
+Lemma pairs_In ds k h : In (k, h) (pairs ds) <-> exists hs, In (k, hs) ds /\ In h hs.
+Proof.
+  unfold pairs. rewrite in_flat_map. split.
+  - intros [[k' hs] [Hin Hm]]. simpl in Hm. apply in_map_iff in Hm. destruct Hm as [h' [E Hh]].
+    injection E as -> ->. exists hs. auto.
+  - intros [hs [Hin Hh]]. exists (k, hs). split; [exact Hin|]. simpl. apply in_map_iff. exists h. auto.
+Qed.
+Lemma pairs_length ds : length (pairs ds) = length (flat_map snd ds).
+Proof.
+  induction ds as [|[k hs] ds IH]; [reflexivity|].
+  rewrite pairs_cons. cbn [flat_map snd]. rewrite !app_length, map_length, IH. reflexivity.
+Qed.
+Lemma NoDup_app_inv {A} (l l' : list A) : NoDup (l ++ l') -> NoDup l /\ NoDup l' /\ forall x, In x l -> ~ In x l'.
+Proof.
+  induction l as [|a l IH]; simpl; intros H.
+  - split; [constructor|split; [exact H|intros x []]].
+  - inversion H as [|x xs Hni Hnd]; subst. destruct (IH Hnd) as [A1 [A2 A3]]. split; [|split; [exact A2|]].
+    + constructor; [|exact A1]. intros Hc. apply Hni. apply in_or_app. auto.
+    + intros x [->|Hx] Hc; [apply Hni; apply in_or_app; auto|exact (A3 x Hx Hc)].
+Qed.
+Lemma filter_map_pair (f : N * N -> bool) k hs :
+  filter f (map (fun h => (k, h)) hs) = map (fun h => (k, h)) (filter (fun h => f (k, h)) hs).
+Proof.
+  induction hs as [|h hs IH]; simpl; [reflexivity|]. destruct (f (k, h)); simpl; rewrite IH; reflexivity.
+Qed.
+Lemma known_false_iff index k h : known index k h = false <-> ~ In (k, h) index.
+Proof.
+  unfold known. rewrite <- idx_existsb.
+  destruct (existsb (fun e => (fst e =? k) && (snd e =? h)) index); split; intros H.
+  - discriminate.
+  - exfalso. apply H. reflexivity.
+  - discriminate.
+  - reflexivity.
+Qed.
+
+(* success of handle_heights on fresh, pairwise distinct heights *)
+Lemma handle_heights_ok k hs : forall index out, NoDup hs -> (forall h, In h hs -> ~ In (k, h) index) ->
+  exists index' out', handle_heights k hs index out = Some (index', out') /\
+    forall e, In e index' -> In e index \/ exists h, In h hs /\ e = (k, h).
+Proof.
+  induction hs as [|h hs IH]; intros index out Hnd Hfresh.
+  - exists index, out. split; [reflexivity|auto].
+  - cbn [handle_heights].
+    assert (E : existsb (fun e => (fst e =? k) && (snd e =? h)) index = false).
+    { apply known_false_iff. apply Hfresh. now left. }
+    rewrite E. inversion Hnd as [|x xs Hni Hnd']; subst.
+    destruct (IH ((k, h) :: index) (out ++ [k]) Hnd') as [index' [out' [E' Hsub]]].
+    + intros h' Hh' [Heq|Hc].
+      * injection Heq as ->. contradiction.
+      * apply (Hfresh h'); [now right|exact Hc].
+    + exists index', out'. split; [exact E'|]. intros e He.
+      destruct (Hsub e He) as [[<-|Hi]|[h' [Hh' ->]]].
+      * right. exists h. split; [now left|reflexivity].
+      * now left.
+      * right. exists h'. split; [now right|reflexivity].
+Qed.
+
+(* success of handle_double_signers on a well-formed list of fresh pairs *)
+Lemma hds_ok ds : forall index out, (forall d, In d ds -> snd d <> []) -> NoDup (pairs ds) ->
+  (forall e, In e (pairs ds) -> ~ In e index) ->
+  exists index' out', handle_double_signers ds index out = Some (index', out').
+Proof.
+  induction ds as [|[k hs] ds IH]; intros index out Hne Hnd Hfresh.
+  - exists index, out. reflexivity.
+  - rewrite pairs_cons in Hnd, Hfresh. destruct (NoDup_app_inv _ _ Hnd) as [N1 [N2 N3]].
+    apply NoDup_map_inv in N1.
+    destruct (handle_heights_ok k hs index out N1) as [index1 [out1 [E Hsub]]].
+    { intros h Hh. apply Hfresh. apply in_or_app. left. apply in_map_iff. exists h. auto. }
+    assert (Hhs : hs <> []) by (apply (Hne (k, hs)); now left).
+    cbn [handle_double_signers]. destruct hs as [|h0 hs0]; [congruence|]. rewrite E.
+    apply IH.
+    + intros d Hd. apply Hne. now right.
+    + exact N2.
+    + intros e He Hc. destruct (Hsub e Hc) as [Hi|[h [Hh ->]]].
+      * apply (Hfresh e); [apply in_or_app; now right|exact Hi].
+      * apply (N3 (k, h)); [apply in_map_iff; exists h; auto|exact He].
+Qed.
+
+Lemma drop_known_cons index d ds : drop_known index (d :: ds) = drop_known index [d] ++ drop_known index ds.
+Proof. unfold drop_known. cbn [flat_map]. rewrite app_nil_r. reflexivity. Qed.
+Lemma pairs_drop_known1 index k hs :
+  pairs (drop_known index [(k, hs)]) = filter (fun e => negb (known index (fst e) (snd e))) (map (fun h => (k, h)) hs).
+Proof.
+  rewrite filter_map_pair. cbn [fst snd]. unfold drop_known. cbn [flat_map fst snd]. rewrite app_nil_r.
+  destruct hs as [|h0 hs0]; [reflexivity|].
+  destruct (filter (fun h => negb (known index k h)) (h0 :: hs0)) as [|h1 hs1]; [reflexivity|].
+  unfold pairs. cbn [flat_map fst snd]. rewrite app_nil_r. reflexivity.
+Qed.
+(* the pairs of the filtered list are exactly the pairs that are not indexed yet, in order *)
+Lemma pairs_drop_known index ds :
+  pairs (drop_known index ds) = filter (fun e => negb (known index (fst e) (snd e))) (pairs ds).
+Proof.
+  induction ds as [|[k hs] ds IH]; [reflexivity|].
+  rewrite drop_known_cons, pairs_app, pairs_cons, filter_app, IH, pairs_drop_known1. reflexivity.
+Qed.
+Lemma drop_known_nonempty index ds : (forall d, In d ds -> snd d <> []) ->
+  forall d, In d (drop_known index ds) -> snd d <> [].
+Proof.
+  intros Hne d Hd. unfold drop_known in Hd. apply in_flat_map in Hd. destruct Hd as [[k hs] [Hin Hd]].
+  cbn [fst snd] in Hd. specialize (Hne _ Hin). cbn [snd] in Hne.
+  destruct hs as [|h0 hs0]; [congruence|].
+  destruct (filter (fun h => negb (known index k h)) (h0 :: hs0)) as [|h1 hs1]; [destruct Hd|].
+  destruct Hd as [<-|[]]. discriminate.
+Qed.
+(* a well-formed own list (every entry names a height, no (validator, height) pair twice) is never refused, whatever is indexed *)
+Theorem own_never_refused ds index :
+  (forall d, In d ds -> snd d <> []) -> NoDup (pairs ds) ->
+  exists index' out, handle_own_double_signers ds index = Some (index', out).
+Proof.
+  intros Hne Hnd. unfold handle_own_double_signers. apply hds_ok.
+  - apply drop_known_nonempty. exact Hne.
+  - rewrite pairs_drop_known. apply NoDup_filter. exact Hnd.
+  - intros [k h] He. rewrite pairs_drop_known in He. apply filter_In in He. destruct He as [_ He].
+    cbn [fst snd] in He. apply negb_true_iff in He. apply known_false_iff. exact He.
+Qed.
+(* what it slashes: exactly the pairs that were not indexed yet, each once; nothing that was indexed is slashed again *)
+Theorem own_slashes_only_new ds index index' out k hs h :
+  handle_own_double_signers ds index = Some (index', out) -> In (k, hs) ds -> In h hs ->
+  In (k, h) index' /\ (In (k, h) index -> forall hs', In (k, hs') (drop_known index ds) -> ~ In h hs').
+Proof.
+  unfold handle_own_double_signers. intros H Hin Hh.
+  destruct (hds_spec _ _ _ _ _ H) as [Hm [Hp _]]. split.
+  - destruct (known index k h) eqn:Ek.
+    + apply Hm. apply idx_existsb. exact Ek.
+    + assert (Hq : In (k, h) (pairs (drop_known index ds))).
+      { rewrite pairs_drop_known. apply filter_In. split; [apply pairs_In; eauto|]. cbn [fst snd]. now rewrite Ek. }
+      apply pairs_In in Hq. destruct Hq as [hs' [H1 H2]]. exact (proj1 (Hp _ _ _ H1 H2)).
+  - intros Hidx hs' H1 H2. exact (proj2 (Hp _ _ _ H1 H2) Hidx).
+Qed.
+Theorem own_one_slash_per_new_pair ds index index' out :
+  handle_own_double_signers ds index = Some (index', out) ->
+  length out = length (filter (fun e => negb (known index (fst e) (snd e))) (pairs ds)).
+Proof.
+  unfold handle_own_double_signers. intros H.
+  destruct (hds_spec _ _ _ _ _ H) as [_ [_ [Hl _]]].
+  rewrite Hl, <- pairs_drop_known, pairs_length. reflexivity.
+Qed.
+(* the repaired halt, in the model: the old begin-block (handle_double_signers on the raw list) fails on a pair a transaction of the
+   same block had indexed; the new one succeeds and slashes nothing for it *)
+Example old_own_certificate_halts :
+  handle_double_signers [(3, [5])] [(3, 5)] [] = None /\ handle_own_double_signers [(3, [5]); (4, [5])] [(3, 5)] = Some ([(4, 5); (3, 5)], [4]).
+Proof. vm_compute. split; reflexivity. Qed.
+
+Print Assumptions own_never_refused.
+Print Assumptions own_slashes_only_new.
+Print Assumptions own_one_slash_per_new_pair.
